@@ -172,11 +172,13 @@ def fams_c10(tier, seed):
     if tier == "quick":
         return [
             Family("close4", "exh", "STYRUVDABMCo", "0,1", depth=4, configs=("w:s", "l:a")),
-            Family("rand-close", "rand", "STYyRUvdABMCKh", "0,1,2,u", length=30, n=3000, configs=("w:s", "b:a")),
+            Family("close-handles4", "exh", "CHKyv", "1", depth=4, configs=("w:s", "l:a")),
+            Family("rand-close", "rand", "STYyRUvdABMCKH", "0,1,2,u", length=30, n=3000, configs=("w:s", "b:a")),
         ]
     return [
         Family("close5", "exh", "STyRUvdABMCo", "0,1,2", depth=5, configs=("w:s", "l:a", "z:s")),
-        Family("rand-close", "rand", "STYyRUvdABMCKh", "0,1,2,u", length=50, n=40000, configs=ALLCFG),
+        Family("close-handles5", "exh", "CHKyv", "0,1", depth=5, configs=("w:s", "l:a")),
+        Family("rand-close", "rand", "STYyRUvdABMCKH", "0,1,2,u", length=50, n=40000, configs=ALLCFG),
     ]
 
 
@@ -436,7 +438,7 @@ PROPS = {
                   rel_ops("send", "sendt", "sendot", "try", "polls", "len", "isfull", "isempty", "capacity", "isbounded", "recv", "recvt", "tryr", "pollr", "drain"),
                   "buffer length within capacity in every reachable state; refusal iff no waiting receiver and no room; unbounded never refuses/waits; capacity 0 never buffers; counting identity accepted-not-blocked minus delivered = buffer length"),
     "C10": simple("C10", "proof", fams_c10, conc_prof("close", CLOSE_MACROS, ["close", "stuck"]),
-                  rel_ops("close", "isclosed", "scount", "rcount", "send", "sendt", "sendot", "try", "recv", "recvt", "tryr", "drain", "polls", "pollr"),
+                  rel_ops("close", "isclosed", "scount", "rcount", "send", "sendt", "sendot", "try", "recv", "recvt", "tryr", "drain", "polls", "pollr", "clone", "conv"),
                   "close succeeds exactly once; at its critical section every waiter is terminated and woken, the buffer destroyed, counts zero; afterwards every entry point answers Closed and the delivery log never grows"),
     "C11": simple("C11", "proof", fams_c11, conc_prof("disconnect", DISC_MACROS, ["disconnect", "stuck"]),
                   rel_ops("drop", "clone", "isdisc", "isterm", "recv", "recvt", "tryr", "pollr", "send", "sendt", "sendot", "try", "polls", "drain"),
